@@ -155,7 +155,9 @@ class BoundedStream:
 
             self._bytes_remaining = content_length - len(self._buffer)
 
-        self._pos = len(self._buffer)
+        # NOTE: Nothing has been handed to the caller yet; the first chunk
+        #   is only buffered, and is counted by tell() once it is read.
+        self._pos = 0
 
         if first_event and self._bytes_remaining:
             # NOTE(kgriffs): Override if the event says there's no more data
@@ -237,6 +239,7 @@ class BoundedStream:
                 'This stream is closed; no further operations on it are permitted.'
             )
 
+        self._pos += len(self._buffer)
         self._buffer = b''
 
         while self._bytes_remaining > 0:
@@ -250,6 +253,9 @@ class BoundedStream:
                 except KeyError:
                     # NOTE(kgriffs): The ASGI spec states that 'body' is optional.
                     num_bytes = 0
+
+                # NOTE: Bytes beyond Content-Length are not part of the body.
+                num_bytes = min(num_bytes, self._bytes_remaining)
 
                 self._bytes_remaining -= num_bytes
                 self._pos += num_bytes
@@ -398,8 +404,8 @@ class BoundedStream:
                     #   expecting. This *should* never happen, but better
                     #   safe than sorry.
                     chunks.append(next_chunk[: self._bytes_remaining])
-                    self._bytes_remaining = 0
                     num_bytes_available += self._bytes_remaining
+                    self._bytes_remaining = 0
 
             # NOTE(kgriffs): This also handles the case of receiving
             #   the event: {'type': 'http.disconnect'}
